@@ -413,7 +413,7 @@ class Scheduler:
     scheduling decision; after the prefix the policy is non-preemptive (keep running the
     current actor while enabled, else the lowest enabled id)."""
 
-    def __init__(self, world: World, actors: dict, prefix=(), rng=None, p_switch=0.0, collect="exc"):
+    def __init__(self, world: World, actors: dict, prefix=(), rng=None, p_switch=0.0, collect="exc", max_switch=None):
         self.world = world
         world.sched = self
         self.actors = actors
@@ -426,6 +426,8 @@ class Scheduler:
         self.rng = rng
         self.p_switch = p_switch
         self.collect = collect
+        self.max_switch = max_switch    # random mode: at most this many preemptions
+        self.nswitch = 0
 
     def yield_point(self, actor, desc):
         self.pending[actor] = desc
@@ -480,8 +482,11 @@ class Scheduler:
                 ch = self.prefix[step]
                 if ch not in enabled:
                     ch = cur if cur in enabled else enabled[0]
-            elif self.rng is not None and len(enabled) > 1 and self.rng.random() < self.p_switch:
+            elif self.rng is not None and len(enabled) > 1 and self.rng.random() < self.p_switch \
+                    and (self.max_switch is None or self.nswitch < self.max_switch or cur not in enabled):
                 ch = self.rng.choice(enabled)
+                if cur in enabled and ch != cur:
+                    self.nswitch += 1
             else:
                 ch = cur if cur in enabled else enabled[0]
             self.trace.append((enabled, ch, cur))
@@ -516,6 +521,12 @@ def preemptions(trace_or_choices, trace=None):
         if cur is not None and cur in enabled and ch != cur:
             n += 1
     return n
+
+
+def sample(run_rand, n):
+    """n random schedules: run_rand(i) -> Scheduler run with rng/p_switch/max_switch set by the caller."""
+    for i in range(n):
+        yield run_rand(i)
 
 
 def explore(run_once, max_preempt=2, limit=None, rng=None):
